@@ -43,4 +43,33 @@ MUTANTS = {
         'user_delta_p_ignored_when_voa': {'edits': [('gnpy/core/network.py', '        dp = node.operational.delta_p\n', '        dp = node.operational.delta_p + voa\n')]},
         'eol_not_in_span_loss': {'edits': [('gnpy/core/network.py', '            fiber.params.con_out += EOL\n', '            fiber.params.con_out += EOL\n            fiber.design_span_loss = fiber.loss - EOL if hasattr(fiber, "uid") and EOL else fiber.loss\n')]},
     },
+    'C10': {
+        'picks_noisiest': {'edits': [('gnpy/core/network.py', "selected_edfa = min(acceptable_power_list, key=attrgetter('nf'))", "selected_edfa = max(acceptable_power_list, key=attrgetter('nf'))")]},
+        'power_filter_lenient': {'edits': [('gnpy/core/network.py', '    acceptable_power_list = [x for x in acceptable_gain_min_list if x.power > 0]', '    acceptable_power_list = [x for x in acceptable_gain_min_list if x.power >= -1]')]},
+        'booster_preamp_lists_swapped': {'edits': [('gnpy/core/network.py', "    elif isinstance(prev_node, elements.Roadm) and prev_node.restrictions['booster_variety_list']:\n        # implementation of restrictions on roadm boosters\n        restrictions = prev_node.restrictions['booster_variety_list']",
+                                                    "    elif isinstance(prev_node, elements.Roadm) and prev_node.restrictions['preamp_variety_list']:\n        # implementation of restrictions on roadm boosters\n        restrictions = prev_node.restrictions['preamp_variety_list']")], 'only': 'network'},
+        'band_filter_dropped': {'edits': [('gnpy/core/network.py', "                     if (a.type_def != 'multi_band' and a.f_min <= band['f_min'] and a.f_max >= band['f_max'])",
+                                           "                     if (a.type_def != 'multi_band')")], 'only': 'network'},
+        'raman_rule_inverted': {'edits': [('gnpy/core/network.py', '        raman_allowed = (prev_node.params.loss_coef < max_fiber_lineic_loss_for_raman).all()', '        raman_allowed = (prev_node.params.loss_coef > max_fiber_lineic_loss_for_raman).all()')], 'only': 'network'},
+        'variety_list_ignored': {'edits': [('gnpy/core/network.py', '    if node.variety_list and isinstance(node.variety_list, list):', '    if False and isinstance(node.variety_list, list):')], 'only': 'network'},
+        'nf_ranked_at_other_gain': {'edits': [('gnpy/core/network.py', "        nf=edfa_nf(gain_target, edfa_eqpt[edfa_variety]),\n        f_min=edfa.f_min,\n        f_max=edfa.f_max)\n        for edfa_variety, edfa in edfa_dict.items()\n        if not edfa.raman]",
+                                               "        nf=edfa_nf(gain_target + 6, edfa_eqpt[edfa_variety]),\n        f_min=edfa.f_min,\n        f_max=edfa.f_max)\n        for edfa_variety, edfa in edfa_dict.items()\n        if not edfa.raman]")]},
+        'min_gain_allowance_dropped': {'edits': [('gnpy/core/network.py', '        gain_min=gain_target + 3 - edfa.gain_min,', '        gain_min=gain_target - 3 - edfa.gain_min,')]},
+    },
+    'C11': {
+        'ispart_ignores_order': {'edits': [('gnpy/topology/request.py', '            if pthb.index(elem) >= j:\n                j = pthb.index(elem)\n            else:\n                return False', '            if pthb.index(elem) >= 0:\n                j = pthb.index(elem)\n            else:\n                return False')]},
+        'weight_is_hop_count': {'edits': [('gnpy/topology/request.py', "        path_generator = shortest_simple_paths(network, source, destination, weight='weight')", "        path_generator = shortest_simple_paths(network, source, destination, weight=None)")]},
+        'loose_fallback_returns_nothing': {'edits': [('gnpy/topology/request.py', "            total_path = dijkstra_path(network, source, destination, weight='weight')", "            total_path = []")]},
+        'reverse_path_from_forward_oms': {'edits': [('gnpy/topology/request.py', 'reversed([el.oms.reversed_oms for el in pth', 'reversed([el.oms for el in pth')]},
+        'strict_check_skips_last_item': {'edits': [('gnpy/topology/request.py', "        if 'STRICT' not in req.loose_list[:-1]:", "        if 'STRICT' not in req.loose_list[:-2]:")]},
+        'split_fibre_edge_weight_lost': {'edits': [('gnpy/core/network.py', '        if isinstance(prev_node, elements.Fiber):\n            edgeweight = prev_node.params.length\n        else:\n            edgeweight = 0.01\n        network.add_edge(prev_node, new_span, weight=edgeweight)', '        edgeweight = 0.01\n        network.add_edge(prev_node, new_span, weight=edgeweight)')]},
+        'explicit_path_unchecked': {'edits': [('gnpy/topology/request.py', '    if len(unique_ordered(path)) != len(path) or not ispart(node_list, path):', '    if False:')]},
+    },
+    'C12': {
+        'reverse_direction_not_checked': {'edits': [('gnpy/topology/request.py', 'all_disjoint += isdisjoint(pth1, pth) + isdisjoint(pth1_reversed, pth)', 'all_disjoint += isdisjoint(pth1, pth)')]},
+        'isdisjoint_always_true': {'edits': [('gnpy/topology/request.py', '    for edge in edge1:\n        if edge in edge2:\n            return 1\n    return 0', '    for edge in edge1[:1]:\n        if edge in edge2:\n            return 1\n    return 0')]},
+        'third_member_not_checked': {'edits': [('gnpy/topology/request.py', '                    for pth in cndt:\n                        all_disjoint += isdisjoint', '                    for pth in cndt[:1]:\n                        all_disjoint += isdisjoint')]},
+        'step3_pruning_removed': {'edits': [('gnpy/topology/request.py', '            if iscandidate != 0:\n', '            if False:\n')]},
+        'include_check_on_short_list': {'edits': [('gnpy/topology/request.py', "[e.uid for e in allpaths[id(pth)].pth]):", "pth):")]},
+    },
 }
